@@ -10,9 +10,29 @@ import time
 from .. import core, concretise
 
 
+def prove_merge():
+    """TLAPS: the merge step of MergeCore.tla is associative, with Unset / the empty mapping as identity, for EVERY value
+    (MergeProofs.tla).  tlapm has neither RECURSIVE nor the CommunityModules: it loads MergeCore (no fold) and the stubs
+    of spec/tlapm_stubs for the two community modules Config.tla extends (no proof expands an operator of those)."""
+    import re
+    import tempfile
+    d = tempfile.mkdtemp(prefix="tlaps-", dir=core.scratch())
+    for f in ("MergeCore.tla", "Config.tla", "Names.tla", "MergeProofs.tla"):
+        shutil.copy(os.path.join(core.SPEC, f), d)
+    for f in os.listdir(os.path.join(core.SPEC, "tlapm_stubs")):
+        shutil.copy(os.path.join(core.SPEC, "tlapm_stubs", f), d)
+    p = core.sh(["tlapm", "--threads", str(min(8, core.NCPU)), "MergeProofs.tla"], cwd=d, check=False, timeout=900, env=dict(os.environ))
+    m = re.search(r"All (\d+) obligations? proved", p.stdout)
+    shutil.rmtree(d, ignore_errors=True)
+    if not m:
+        raise core.InfraError("TLAPS could not discharge MergeProofs:\n" + p.stdout[-2000:])
+    return int(m.group(1))
+
+
 def run_c09(tier):
     pid = "C09"
     t0 = time.time()
+    obligations = prove_merge()
     rng = random.Random(core.seed())
     v = core.Verdict(pid)
     wd = core.subdir("c09")
@@ -104,6 +124,10 @@ def run_c09(tier):
                 "checked on the model only; non-trivial = more than one file",
         "exhaustive": True, "accepted": n_acc, "rejected_consistently": n_rej,
         "design_invariants_checked_by_tlc": ["Associative", "Identity", "SplitBack"],
+        "tlaps": {"module": "MergeProofs.tla", "obligations_proved": obligations,
+                  "theorems": "LaterAssoc, LaterIdentity, LaterKeepsOrOverrides, MergeFnDomain, MergeFnAssoc, MergeFnIdentity, ArgsAssoc, "
+                              "AppendAssoc, SvcScalarAssoc: one merge step is associative attribute by attribute for every value, not only "
+                              "the enumerated triples"},
         "known_findings_hit": {k: n for k, (f, n) in v.known_hit.items()},
     }, time.time() - t0, violations=len(v.violations), assumptions=[
         "the binding of the code's merge to Merge.tla is through byte-identical output of the tool on merged-by-tool vs merged-by-model input",
